@@ -665,33 +665,201 @@ func (p *pathExtractor) recvName(fd *ast.FuncDecl) string {
 	return ""
 }
 
-// names of all calls inside n, in source order; calls of methods on the receiver are followed (same file)
+// names of all calls inside n, in source order; calls of methods on the receiver are followed (same file).
+// With mark set, a call that is not executed on every pass through n — it sits in a branch guarded by something else
+// than an error check, in a loop / switch / closure, in the right operand of && or ||, or behind a guarded early exit —
+// is reported with a leading "?".
 func (p *pathExtractor) calls(n ast.Node, self string, depth int) []string {
-	var res []string
+	w := &pathWalker{p: p}
 
-	ast.Inspect(n, func(x ast.Node) bool {
-		c, ok := x.(*ast.CallExpr)
-		if !ok {
-			return true
+	switch v := n.(type) {
+	case *ast.BlockStmt:
+		w.stmts(v.List, self, depth, false)
+	case ast.Stmt:
+		w.stmts([]ast.Stmt{v}, self, depth, false)
+	default:
+		w.expr(n, self, depth, false)
+	}
+
+	return w.res
+}
+
+type pathWalker struct {
+	p    *pathExtractor
+	mark bool
+	res  []string
+}
+
+func (w *pathWalker) add(name string, cond bool) {
+	if cond && w.mark {
+		name = "?" + name
+	}
+
+	w.res = append(w.res, name)
+}
+
+// err == nil, err != nil, errors.Is(err, ..), errors.As(err, ..) and their combinations
+func isErrCond(e ast.Expr) bool {
+	switch v := e.(type) {
+	case *ast.ParenExpr:
+		return isErrCond(v.X)
+	case *ast.UnaryExpr:
+		return v.Op == token.NOT && isErrCond(v.X)
+	case *ast.BinaryExpr:
+		switch v.Op {
+		case token.LAND, token.LOR:
+			return isErrCond(v.X) && isErrCond(v.Y)
+		case token.EQL, token.NEQ:
+			x, xok := v.X.(*ast.Ident)
+			y, yok := v.Y.(*ast.Ident)
+
+			return xok && yok && ((x.Name == "err" && y.Name == "nil") || (x.Name == "nil" && y.Name == "err"))
+		}
+	case *ast.CallExpr:
+		if c, ok := isCall(v, "errors", "Is"); ok && len(c.Args) == 2 {
+			id, ok := c.Args[0].(*ast.Ident)
+
+			return ok && id.Name == "err"
 		}
 
-		switch f := c.Fun.(type) {
-		case *ast.SelectorExpr:
-			res = append(res, f.Sel.Name)
+		if c, ok := isCall(v, "errors", "As"); ok && len(c.Args) == 2 {
+			id, ok := c.Args[0].(*ast.Ident)
 
-			if id, ok := f.X.(*ast.Ident); ok && id.Name == self && depth < 3 {
-				if fd := findFunc(p.file, p.recv, f.Sel.Name); fd != nil {
-					res = append(res, p.calls(fd.Body, p.recvName(fd), depth+1)...)
-				}
+			return ok && id.Name == "err"
+		}
+	}
+
+	return false
+}
+
+func exits(n ast.Node) bool {
+	found := false
+
+	ast.Inspect(n, func(x ast.Node) bool {
+		switch v := x.(type) {
+		case *ast.FuncLit:
+			return false
+		case *ast.ReturnStmt:
+			found = true
+		case *ast.BranchStmt:
+			found = true
+		case *ast.CallExpr:
+			if id, ok := v.Fun.(*ast.Ident); ok && id.Name == "panic" {
+				found = true
 			}
-		case *ast.Ident:
-			res = append(res, f.Name)
+		}
+
+		return !found
+	})
+
+	return found
+}
+
+func (w *pathWalker) expr(n ast.Node, self string, depth int, cond bool) {
+	if n == nil {
+		return
+	}
+
+	ast.Inspect(n, func(x ast.Node) bool {
+		switch v := x.(type) {
+		case *ast.BinaryExpr:
+			if v.Op == token.LAND || v.Op == token.LOR {
+				w.expr(v.X, self, depth, cond)
+				w.expr(v.Y, self, depth, true)
+
+				return false
+			}
+		case *ast.FuncLit:
+			w.stmts(v.Body.List, self, depth, true)
+
+			return false
+		case *ast.CallExpr:
+			switch f := v.Fun.(type) {
+			case *ast.SelectorExpr:
+				w.add(f.Sel.Name, cond)
+
+				if id, ok := f.X.(*ast.Ident); ok && id.Name == self && depth < 3 {
+					if fd := findFunc(w.p.file, w.p.recv, f.Sel.Name); fd != nil {
+						w.stmts(fd.Body.List, w.p.recvName(fd), depth+1, cond)
+					}
+				}
+			case *ast.Ident:
+				w.add(f.Name, cond)
+			}
 		}
 
 		return true
 	})
+}
 
-	return res
+// returns whether what follows the list is only reached conditionally
+func (w *pathWalker) stmts(list []ast.Stmt, self string, depth int, cond bool) bool {
+	for _, s := range list {
+		switch v := s.(type) {
+		case *ast.BlockStmt:
+			cond = w.stmts(v.List, self, depth, cond)
+		case *ast.LabeledStmt:
+			cond = w.stmts([]ast.Stmt{v.Stmt}, self, depth, cond)
+		case *ast.IfStmt:
+			if v.Init != nil {
+				w.stmts([]ast.Stmt{v.Init}, self, depth, cond)
+			}
+
+			w.expr(v.Cond, self, depth, cond)
+
+			inner := cond || !isErrCond(v.Cond)
+			w.stmts(v.Body.List, self, depth, inner)
+
+			guardedExit := !isErrCond(v.Cond) && exits(v.Body)
+
+			if v.Else != nil {
+				w.stmts([]ast.Stmt{v.Else}, self, depth, inner)
+
+				guardedExit = guardedExit || (!isErrCond(v.Cond) && exits(v.Else))
+			}
+
+			cond = cond || guardedExit
+		case *ast.ForStmt:
+			if v.Init != nil {
+				w.stmts([]ast.Stmt{v.Init}, self, depth, cond)
+			}
+
+			w.expr(v.Cond, self, depth, true)
+			w.stmts(v.Body.List, self, depth, true)
+		case *ast.RangeStmt:
+			w.expr(v.X, self, depth, cond)
+			w.stmts(v.Body.List, self, depth, true)
+		case *ast.SwitchStmt:
+			if v.Init != nil {
+				w.stmts([]ast.Stmt{v.Init}, self, depth, cond)
+			}
+
+			w.expr(v.Tag, self, depth, cond)
+			w.stmts(v.Body.List, self, depth, true)
+
+			cond = cond || exits(v.Body)
+		case *ast.TypeSwitchStmt:
+			w.stmts(v.Body.List, self, depth, true)
+
+			cond = cond || exits(v.Body)
+		case *ast.SelectStmt:
+			w.stmts(v.Body.List, self, depth, true)
+
+			cond = cond || exits(v.Body)
+		case *ast.CaseClause:
+			for _, e := range v.List {
+				w.expr(e, self, depth, true)
+			}
+
+			w.stmts(v.Body, self, depth, true)
+		case *ast.CommClause:
+			w.stmts(v.Body, self, depth, true)
+		default:
+			w.expr(s, self, depth, cond)
+		}
+	}
+
+	return cond
 }
 
 func isCacheGet(s *ast.IfStmt) bool {
@@ -741,7 +909,9 @@ func extractPaths(root string, t target) (hit, miss []string, returns bool) {
 		fail(hitBlock, "unrecognised shape of the cache lookup")
 	}
 
-	hit = p.calls(hitBlock.Body, self, 0)
+	hw := &pathWalker{p: p, mark: true}
+	hw.stmts(hitBlock.Body.List, self, 0, false)
+	hit = hw.res
 
 	ast.Inspect(hitBlock.Body, func(x ast.Node) bool {
 		if _, ok := x.(*ast.ReturnStmt); ok {
@@ -812,7 +982,7 @@ func leanList(items []string) string {
 	q := make([]string, 0, len(items))
 
 	for _, s := range items {
-		if relevant[s] {
+		if relevant[strings.TrimPrefix(s, "?")] {
 			q = append(q, leanStr(s))
 		}
 	}
